@@ -645,6 +645,12 @@ def check_pair(ctx, env, cfg, pred, raw, t_lib, r):
     m = direction_margin(cfg.point, r.method, r.order, dt, cfg.energy)
     status = "admissible" if c.gmin > m else ("inadmissible" if c.gmax < -m else "ambiguous")
     ctx.count(f"3:accepted crossing is {status} [{'q' if sec[0] == 'q' else 'p'}-section]")
+    if getattr(ctx, "_c14_pair_samples", 0) < 3 and (j > 0 or sec[0] == "p"):
+        ctx._c14_pair_samples = getattr(ctx, "_c14_pair_samples", 0) + 1
+        ctx.sample({"pair": {"point": cfg.point, "section": sec, "scheme": cfg.scheme(), "dt": dt, "energy": cfg.energy, "iteration": r.iteration},
+                    "predecessor": pred, "successor_returned": xe, "successor_time": t_lib,
+                    "reference_crossings": [{"t": o.t, "g_range": [o.gmin, o.gmax], "slope": o.slope} for o in crossings[:6]],
+                    "matched_crossing": j, "state_error": d, "tolerance": tol, "admissibility_of_match": status, "margin": m})
     ctx.check(not (c.gmax < -m), "3:accepted crossing is not definitely inadmissible in the documented direction",
               lambda: wit(accepted_index=j, g_range=[c.gmin, c.gmax], margin=m))
     earlier = [k for k, o in enumerate(crossings[:j]) if _definitely_admissible(o, crossings, dt, m, T)]
@@ -951,8 +957,11 @@ def replay(ctx, w):
     rec = Recorder(ctx.rng)
     rec.install()
     try:
-        obs = compute_map(envs[(cfg.point, cfg.degree)], cfg, rec)
-        guarded(ctx, "replay", check_map, ctx, envs[(cfg.point, cfg.degree)], obs, 20, 4)
+        if isinstance(wt.get("dt"), list) and len(wt["dt"]) >= 2:       # witness of the dt-halving clause
+            guarded(ctx, "replay", shrink_monitor, ctx, envs, rec, [(cfg, tuple(float(d) for d in wt["dt"]))], 3)
+        else:
+            obs = compute_map(envs[(cfg.point, cfg.degree)], cfg, rec, axes=tuple(wt["axes"]) if wt.get("axes") else ("q2", "p3"))
+            guarded(ctx, "replay", check_map, ctx, envs[(cfg.point, cfg.degree)], obs, 20, 4)
     finally:
         rec.uninstall()
 
